@@ -72,6 +72,18 @@ func (c *compiler) compileImport(m *Module) error {
 }
 
 func (c *compiler) compile(o interface{}) error {
+	if t, isTypedef := o.(*Typedef); isTypedef {
+		// whichever way a typedef is reached (the module's own walk, a leaf's type, a union member):
+		// while its type is being compiled, reaching it again is a cycle
+		if c.typedefsInProgress[t] {
+			return errors.New(SchemaPath(t) + " - typedef " + t.ident + " is defined in terms of itself")
+		}
+		if c.typedefsInProgress == nil {
+			c.typedefsInProgress = make(map[*Typedef]bool)
+		}
+		c.typedefsInProgress[t] = true
+		defer delete(c.typedefsInProgress, t)
+	}
 
 	if x, ok := o.(HasTypedefs); ok {
 		for _, y := range x.Typedefs() {
@@ -433,10 +445,7 @@ func (c *compiler) findTypedef(y *Type, parent Definition, qualifiedIdent string
 	if c.typedefsInProgress == nil {
 		c.typedefsInProgress = make(map[*Typedef]bool)
 	}
-	c.typedefsInProgress[found] = true
-	err := c.compile(found)
-	delete(c.typedefsInProgress, found)
-	if err != nil {
+	if err := c.compile(found); err != nil {
 		return nil, err
 	}
 
